@@ -5,7 +5,7 @@ from pathlib import Path
 import menpo.io as mio
 from menpo.shape import *
 from menpo.landmark import LandmarkManager
-d=Path(tempfile.mkdtemp(dir='/tmp/w'))
+d=Path(tempfile.mkdtemp())
 P=np.array([[1.5,2.25],[np.nan,np.nan],[3.1,0.1],[0.3333333333333333,7.0]])
 l=LabelledPointUndirectedGraph.init_from_indices_mapping(P,np.array([[0,2],[2,3],[0,3]]),OrderedDict([('zeta',[0,1]),('βeta',[1,2,3]),('alpha',[0,3])]))
 lm=LandmarkManager(); lm['grp.one']=l; lm['ünï']=PointCloud(P[[0,2,3]]); lm['a']=PointDirectedGraph.init_from_edges(P[[0,2,3]],np.array([[0,1],[2,1]]))
